@@ -25,6 +25,13 @@ def families(tier, seed):
     for vec in (False, True):
         T_, dt_ = (0.5, 0.01)
         out.append(dict(tag=f"{tag_}/{T_}/{dt_}", features=dict(feats_, dt=dt_), kind="run", model=model_, T=T_, dt=dt_, dts=None, solver="euler", vec=vec))
+    # kernels that come from successive edits (two different node types, so every edge is a group of its own)
+    pop_ = gen.op_li("op", x="r", ins=("r_in",), tau=2.0, x0=0.4, in_defaults={"r_in": 0.0})
+    tgt_ = gen.op_li("tg", x="v", ins=("u",), tau=1.0, x0=0.1, in_defaults={"u": 0.0})
+    m_ed = gen.model([pop_, tgt_], {"p1": dict(ops=["op"]), "t1": dict(ops=["tg"])}, [gen.edge("p1/op/r", "t1/tg/u", 1.0, 0.3, 0.1), gen.edge("t1/tg/v", "p1/op/r_in", 0.4)])
+    for how, vecs in (("two-updates", (False, True)), ("parallel-pathway", (True,))):     # (parallel delayed edges do not compile non-vectorised: listed finding)
+        for vec in vecs:
+            out.append(dict(tag=f"G7-kernel-from-edits/{how}", features=dict(edited=how, dt=0.01), kind="edited_kernel", model=m_ed, how=how, T=0.5, dt=0.01, vec=vec))
     # a group of edges of which only some carry a spread (fixed witness of a listed finding; the non-vectorised compilation is checked)
     tag6, feats6, model6 = gen.mixed_kernel_model()
     for vec in (False, True):
@@ -35,6 +42,51 @@ def families(tier, seed):
             dt = feats.get("dt", 0.05)
             out.append(dict(tag=tag, features=feats, kind="population", ps=ps, T=10 * dt if dt >= 0.05 else 0.5, dt=dt))
     return out
+
+
+def edited_kernel_case(c):
+    """(delay, spread) given to an edge by successive edits: update_var on the delay, then on the spread (the same edge twice), or a
+    second, PARALLEL delayed pathway added with update_template(edges=...): the simulated kernel is the one of the final circuit."""
+    import json
+    import numpy as np
+    from rtc import mdl, oracle
+    model = json.loads(json.dumps(c["model"]))
+    base = mdl.build_templates(model)
+    e0 = model["edges"][0]
+    T, dt = c["T"], c["dt"]
+    if c["how"] == "two-updates":
+        base.update_var(edge_vars=[(e0["src"], e0["tgt"], {"delay": 0.25})])
+        base.update_var(edge_vars=[(e0["src"], e0["tgt"], {"spread": 0.05})])
+        base.update_var(edge_vars=[(e0["src"], e0["tgt"], {"weight": -0.75})])
+        e0.update(d=0.25, s=0.05, w=-0.75)
+        tpl = base
+    else:
+        extra = dict(src=e0["src"], tgt=e0["tgt"], w=0.6, d=0.45, s=0.15)
+        tpl = base.update_template(name="with_second_pathway", edges=[(extra["src"], extra["tgt"], None, {"weight": 0.6, "delay": 0.45, "spread": 0.15})])
+        model["edges"].append(extra)
+    svars = mdl.state_vars(model)
+    outs = {f"v{i}": p for i, p in enumerate(svars)}
+    try:
+        df = tpl.run(simulation_time=T, step_size=dt, solver="euler", outputs=dict(outs), vectorize=c["vec"], verbose=False, clear=True, in_place=False,
+                     float_precision="float64")
+    except Exception as exn:
+        return dict(status="violated", fails=[dict(clause="the edited circuit runs", observed=f"{type(exn).__name__}: {exn}")])
+    _, ref = mdl.spec_fixed_step(model, T, dt, dt, "euler")
+    fails = []
+    for k, p_ in outs.items():
+        g, w = np.asarray(df[k], dtype=float).reshape(len(df.index), -1)[:, 0], np.asarray(ref[p_], dtype=float)
+        if g.shape != w.shape or not np.allclose(g, w, rtol=1e-7, atol=1e-10):
+            bad = int(np.argmax(np.abs(g - w))) if g.shape == w.shape else -1
+            fails.append(dict(clause=f"after {c['how']}: every row equals the explicit chain of the FINAL (delay, spread) values", var=p_, row=bad,
+                              observed=float(g[bad]) if bad >= 0 else list(g.shape), expected=float(w[bad]) if bad >= 0 else list(w.shape)))
+            break
+    return dict(status="violated" if fails else "ok", fails=fails)
+
+
+def case_fn(c):
+    if c.get("kind") == "edited_kernel":
+        return edited_kernel_case(c)
+    return cases.case_fn(c)
 
 
 def kernel_fallback(chk):
@@ -95,13 +147,13 @@ def main():
         chk.report_failure(f)
     _cases = families(chk.tier, chk.seed)
     _results = driver.run_family(
-        chk, "run-vs-explicit-gamma-chain", _cases, cases.case_fn, site="C11/run",
+        chk, "run-vs-explicit-gamma-chain", _cases, case_fn, site="C11/run",
         rule="edges with (delay, spread) pairs rounding to equal and to different orders, same order with different rate, same "
              "delay with different spread, shared sources, shared targets, mixtures with undelayed edges, 4-node rings; "
              "vectorize off and on; every user state variable, every row against the explicit chain of n = round((d/s)^2) "
              "first-order stages of rate n/d (spec_fixed_step); distinct = distinct (model, T, dt, solver, vectorize)",
         sample_of=lambda c: {k: v for k, v in c.items() if k not in ('features',)})
-    driver.run_sequences(chk, "run-vs-explicit-gamma-chain-in-sequence", _cases, _results, cases.case_fn, site="C11/run",
+    driver.run_sequences(chk, "run-vs-explicit-gamma-chain-in-sequence", _cases, _results, case_fn, site="C11/run",
                          limit=20 if chk.tier == "quick" else 120, seed=chk.seed)
     rc = chk.finish(
         explanation="Deductive: the number of stages and the stage rate of the kernel (scalar edges: the per-edge loop of "
